@@ -403,6 +403,9 @@ fn cmd_show(args: &[String]) {
 
 fn main() {
     std::panic::set_hook(Box::new(|_| {}));
+    // stageleft / proc_macro_crate resolve crate names through the manifest of the "current"
+    // crate: the same one the build script of this crate ran under
+    unsafe { std::env::set_var("CARGO_MANIFEST_DIR", env!("CARGO_MANIFEST_DIR")) };
     let args: Vec<String> = std::env::args().collect();
     match args.get(1).map(|s| s.as_str()) {
         Some("prod") => cmd_prod(&args[2..]),
